@@ -47,7 +47,7 @@ Definition busy (p : lpc) : bool :=
 Definition is_rg (p : lpc) : bool := match p with RgBusy => true | _ => false end.
 Definition is_syu (p : lpc) : bool := match p with SyBusyU => true | _ => false end.
 Definition sinky (i : linstr) : bool :=
-  match i with IRLock | IExpand _ | ISubmit _ | ICall _ _ => true | _ => false end.
+  match i with IRLock | IExpand _ | ISubmit _ | ICall _ _ | IAct _ | IEnd => true | _ => false end.
 Definition codeok (th : lthread) : bool :=
   match t_code th with
   | [] => true
@@ -56,8 +56,6 @@ Definition codeok (th : lthread) : bool :=
 
 Lemma existsb_sinky_unwind : forall r, existsb sinky (lunwind r) = true -> existsb sinky r = true.
 Proof. induction r as [|i r IH]; simpl; auto. destruct i; simpl; auto; intros; rewrite ?IH; auto using orb_true_r. Qed.
-Lemma existsb_sinky_acts : forall k, existsb sinky (map IAct k) = false.
-Proof. induction k; simpl; auto. Qed.
 
 (* ------------------------------------------------------------------ inversion of one lthread lstep *)
 Lemma tstep_inv : forall c tid ch th S th' S' ev,
@@ -176,7 +174,6 @@ Lemma i_sinky : forall c tid i rest S code' S' ev,
   listep c tid i rest S = Some (code', S', ev) -> existsb sinky code' = true -> existsb sinky (i :: rest) = true.
 Proof.
   intros c tid i rest S code' S' ev H. inv_i H; simpl in *; auto; intros E.
-  all: try (rewrite existsb_app in E; simpl in E; rewrite existsb_sinky_acts in E; simpl in E; auto; fail).
   all: try (apply existsb_sinky_unwind; auto; fail).
 Qed.
 
@@ -184,7 +181,7 @@ Definition iev_ok (tid : nat) (i : linstr) (ev : list levent) : Prop :=
   match ev with
   | [] => True
   | [ESinkBegin t fl] => t = tid /\ exists k, i = ICall k fl
-  | [ESinkEnd t] => t = tid
+  | [ESinkEnd t] => t = tid /\ i = IEnd
   | _ => False
   end.
 Lemma i_ev : forall c tid i rest S code' S' ev, listep c tid i rest S = Some (code', S', ev) -> iev_ok tid i ev.
@@ -240,6 +237,7 @@ Lemma Rel_istep : forall m st tid th i rest code' S' ev,
   Rel m st -> nth_error (ths st) tid = Some th -> t_code th = i :: rest ->
   listep c tid i rest (sh st) = Some (code', S', ev) ->
   (forall t fl, ev = [ESinkBegin t fl] -> m_bar m = false) /\
+  (forall t, ev = [ESinkEnd t] -> m_bar m = false) /\
   Rel m {| sh := S'; ths := lset_nth tid (lmk (t_pc th) code' (t_arg th)) (ths st); ltrace := rev ev ++ ltrace st |}.
 Proof.
   intros m st tid th i rest code' S' ev R Hn Hc Hi.
@@ -248,15 +246,20 @@ Proof.
   destruct (i_weight _ _ _ _ _ _ _ _ Hi) as [Hl Ht]. destruct (i_flags _ _ _ _ _ _ _ _ Hi) as [Hs Hj].
   pose proof (Forall_nth_error _ _ _ _ _ (rB _ _ R) Hn) as Hok. simpl in Hok.
   unfold codeok in Hok. rewrite Hc in Hok. apply andb_true_iff in Hok. destruct Hok as [Hbusy Hrg].
-  split.
-  - intros t fl E. subst ev. pose proof (i_ev _ _ _ _ _ _ _ _ Hi) as Hev. simpl in Hev. destruct Hev as [_ [k Ek]]. subst i.
+  assert (NoBar : sinky i = true -> m_bar m = false).
+  { intro Sk.
     destruct (m_bar m) eqn:Hb; auto. exfalso.
     pose proof (rD _ _ R Hb) as J. destruct (rH _ _ R J) as [L0 _].
     pose proof (rA _ _ R) as A. assert (W : cnt lweight (ths st) = 0) by lia.
     pose proof (cnt_zero _ _ _ _ W Hn) as W0.
     pose proof (cnt_zero _ _ _ _ (rE _ _ R Hb) Hn) as E0. pose proof (cnt_zero _ _ _ _ (rC _ _ R) Hn) as C0.
-    unfold fsw, fsyu in *. simpl in Hrg.
-    destruct (t_pc th); simpl in *; try discriminate; try lia.
+    unfold fsw, fsyu in *. simpl in Hrg. rewrite Sk in Hrg. simpl in Hrg.
+    destruct (t_pc th); simpl in *; try discriminate; try lia. }
+  split; [|split].
+  - intros t fl E. subst ev. pose proof (i_ev _ _ _ _ _ _ _ _ Hi) as Hev. simpl in Hev. destruct Hev as [_ [k Ek]]. subst i.
+    apply NoBar. reflexivity.
+  - intros t E. subst ev. pose proof (i_ev _ _ _ _ _ _ _ _ Hi) as Hev. simpl in Hev. destruct Hev as [_ Ek]. subst i.
+    apply NoBar. reflexivity.
   - constructor; simpl; rewrite ?Hcnt, ?Hl, ?Ht, ?Hs, ?Hj; try apply R.
     + apply Forall_set_nth; [apply R|]. unfold codeok; simpl. destruct code' as [|i' r'] eqn:Ec; auto.
       rewrite Hbusy. simpl. destruct (is_rg (t_pc th)) eqn:Erg; simpl; auto.
@@ -398,12 +401,13 @@ Proof.
   destruct I as [G|[m [Hm R]]].
   - left. simpl. apply monr_app_inr; auto.
   - destruct (tstep_inv _ _ _ _ _ _ _ _ Hs) as [[i [rest [code' [Hc [Hi E]]]]]|[Hc [p' [code' [Hp E]]]]]; subst th'.
-    + destruct (Rel_istep c m st tid th i rest code' S' ev R Hn Hc Hi) as [Hsb R'].
+    + destruct (Rel_istep c m st tid th i rest code' S' ev R Hn Hc Hi) as [Hsb [Hse R']].
       right. exists m. split; auto. simpl.
       pose proof (i_ev _ _ _ _ _ _ _ _ Hi) as Hev.
       destruct ev as [|e [|e2 ev2]]; simpl in *; auto; try contradiction.
       * rewrite Hm. destruct e; simpl in Hev; try contradiction; simpl; auto.
-        rewrite (Hsb _ _ eq_refl). reflexivity.
+        -- rewrite (Hsb _ _ eq_refl). reflexivity.
+        -- rewrite (Hse _ eq_refl). reflexivity.
       * destruct e; contradiction.
     + eapply Rel_pstep; eauto.
 Qed.
